@@ -1441,6 +1441,18 @@ class Models:
     def m_Box__new(self, c, x):
         return x
 
+    def m_Box__new_uninit(self, c):
+        # vec![..] lowering: Box<MaybeUninit<[T; N]>> written through a raw pointer, then turned into a Vec
+        md = Agg([UNINIT], 'MaybeDangling')
+        mu = Agg([UNIT, Agg([md], 'ManuallyDrop')], 'MaybeUninit')
+        return Agg([Agg([Ref([mu], 0)], 'Unique')], 'BoxUninit')
+
+    def m_boxed__box_assume_init_into_vec_unsafe(self, c, b):
+        content = b.f[0].f[0].get().f[1].f[0].f[0]
+        if not isinstance(content, RVec):
+            raise Unsupported('vec! lowering: unexpected content ' + repr(content))
+        return RVec(list(content.items))
+
     def m_Arc__new(self, c, x):
         return x
 
